@@ -35,9 +35,9 @@ let sfile_ s = match list s with
   | _ -> failwith "sfile"
 let project_ s = list_ sfile_ s
 let config_ s = match list s with
-  | [lib; pr; maps; pc; fc; viz; force] ->
+  | [lib; pr; maps; pc; fc; viz; force; pp] ->
       { M.g_lib = str_ lib; g_private = bool_ pr; g_maps = opt_ (list_ (pair_ str_ str_)) maps;
-        g_pcase = str_ pc; g_fcase = str_ fc; g_viz = bool_ viz; g_force = bool_ force }
+        g_pcase = str_ pc; g_fcase = str_ fc; g_viz = bool_ viz; g_force = bool_ force; g_ppath = str_ pp }
   | _ -> failwith "config"
 let sched_ s = match list s with
   | [f; m] -> { M.w_files = list_ nat_ f; w_maps = list_ nat_ m }
